@@ -400,7 +400,9 @@ def check(case):
     nontrivial = len(hist) >= 2 and produced >= 1
     txt = f"variant={variant} history={[OPS[i] for i in hist]}"
     if fail is not None:
-        if step < len(hist) - 1:
+        if case.get("walk"):
+            txt = f"variant={variant} long walk, failed at step {step}: history={[OPS[i] for i in hist[: step + 1]]}"
+        elif step < len(hist) - 1:
             raise HarnessError(f"a prefix that passed before now fails at step {step}: {fail} | {txt}")
         o = outcome(False, fail[0].split(":")[0], symptom=fail[0], nontrivial=nontrivial, detail=f"{fail[1]} | {txt}")
         o["expanded"] = False
@@ -471,7 +473,18 @@ def run(ctx):
                 nxt.append((c["variant"], c["hist"], r["digest"]))
         ctx.note(f"depth {d}: {len(cases)} histories executed, {len(nxt)} conform and are extended, {len(states)} distinct reference states")
         frontier = nxt
+    # long walks: every rotation of the whole alphabet (and of its reverse) as ONE history of 23 operations - far
+    # beyond the BFS depth, at the price of 2 x 23 histories per variant
+    walks = []
+    for variant in VARIANTS:
+        allowed = [i for i, op in enumerate(OPS) if not (variant == "timedep" and op[0] == "steady_state")]
+        for seq in (allowed, allowed[::-1]):
+            for r in range(len(seq)):
+                walks.append({"variant": variant, "hist": seq[r:] + seq[:r], "prefix_digest": None, "walk": True})
+    ctx.evaluate(walks, timeout=300)
+    transitions += len(walks)
+    ctx.note(f"{len(walks)} long walks of {len(OPS)} operations each")
     ctx.coverage_extra.update(
-        {"states": len(states), "transitions": transitions, "traces_validated_against_impl": transitions,
+        {"states": len(states), "transitions": transitions, "long_walks": len(walks), "traces_validated_against_impl": transitions,
          "depth": depth, "alphabet": len(OPS), "variants": list(VARIANTS)}
     )
